@@ -7,6 +7,7 @@
 -- (Winter/Model/Field.lean) and tied to the code by the correspondence harness.
 -- A raw word `r` denotes the residue `val r = r · (2^64)⁻¹`.
 import WinterProofs.Lemmas.C07F62Z
+import WinterProofs.Lemmas.C07F62InvGen
 import WinterProofs.Lemmas.C07Bytes
 import WinterProofs.Lemmas.Primes
 
@@ -103,6 +104,35 @@ theorem exp_correct (a e : Nat) (ha : Inv a) :
 theorem inv_correct (a : Nat) (ha : Inv a) :
     ∃ r, Model.F62.inv a = .done r ∧ Inv r ∧ val r = (val a)⁻¹ :=
   inv_spec a ha
+
+/-- inversion ON THE TRANSLATED SOURCE (tie T): `Gen.F62Inv.inv N` is what the translator makes
+    of `fn inv` of math/src/field/f62/mod.rs on this run, one fuelled definition per Rust `while`,
+    `N` the fuel handed to every loop.  For every raw word of the invariant and EVERY `N ≥ 400`
+    the translated function returns a word of the invariant denoting the inverse (zero to zero),
+    and no executed step overflows u128/u64 or underflows (`inv_ok`); in particular the result
+    does not depend on the fuel.  Any edit of the loops of `inv` changes the generated
+    definitions and breaks this proof.  `Model.F62.inv` stays the executable model of the
+    line-protocol correspondence (tie K); the two are linked by `F62InvGen.gen_inv_refines`. -/
+theorem inv_gen_correct (a N : Nat) (ha : Inv a) (hN : 400 ≤ N) :
+    Inv (Gen.F62Inv.inv N a) ∧ val (Gen.F62Inv.inv N a) = (val a)⁻¹ ∧
+      Gen.F62Inv.inv_ok N a = true := by
+  obtain ⟨r, h1, h2, h3⟩ := inv_spec a ha
+  obtain ⟨g1, g2⟩ := F62InvGen.gen_inv_refines a r N ha.lt64 hN h1
+  rw [g1]
+  exact ⟨h2, h3, g2⟩
+
+/-- a concrete non-trivial instance: the non-normalised representative `new 5 + M` of five -/
+example : Inv (Gen.F62Inv.inv 400 (new 5 + M)) ∧
+    val (Gen.F62Inv.inv 400 (new 5 + M)) = (val (new 5 + M))⁻¹ ∧
+    Gen.F62Inv.inv_ok 400 (new 5 + M) = true :=
+  inv_gen_correct (new 5 + M) 400 (Inv.of_lt (by decide)) (le_refl _)
+
+/-- the translated function and the hand model agree wherever the model returns -/
+theorem inv_gen_eq_model (a N : Nat) (ha : Inv a) (hN : 400 ≤ N) :
+    Model.F62.inv a = .done (Gen.F62Inv.inv N a) := by
+  obtain ⟨r, h1, -, -⟩ := inv_spec a ha
+  rw [(F62InvGen.gen_inv_refines a r N ha.lt64 hN h1).1]
+  exact h1
 
 /-- both representations of zero are inverted to raw `0` -/
 theorem inv_zero : Model.F62.inv 0 = .done 0 ∧ Model.F62.inv M = .done 0 :=
